@@ -142,6 +142,25 @@ def tlc(module, cfg, env=None, workers=1, xmx="3g", timeout=3600, extra=None, de
     return res
 
 
+def apalache(module, args, timeout=1500):
+    """apalache-mc check on spec/<module>.tla; returns 'NoError', 'Error' (counter-example) or raises ToolError."""
+    outdir = os.path.join(BUILD, "apalache", "%d-%d" % (os.getpid(), _tlc_counter[0]))
+    _tlc_counter[0] += 1
+    os.makedirs(outdir, exist_ok=True)
+    cmd = ["apalache-mc", "check", "--out-dir=" + outdir] + args + [module + ".tla"]
+    try:
+        p = subprocess.run(cmd, cwd=SPEC, stdout=subprocess.PIPE, stderr=subprocess.STDOUT, text=True, timeout=timeout)
+        out = p.stdout
+    except subprocess.TimeoutExpired:
+        shutil.rmtree(outdir, ignore_errors=True)
+        raise ToolError("apalache timed out: %s" % args)
+    shutil.rmtree(outdir, ignore_errors=True)
+    m = re.search(r"The outcome is: (\w+)", out)
+    if not m or m.group(1) not in ("NoError", "Error"):
+        raise ToolError("apalache failed: %s\n%s" % (args, out[-1500:]))
+    return m.group(1)
+
+
 def tlc_prints(out, tag):
     """PrintT(<<"TAG", ...>>) lines of a TLC run, parsed into python lists."""
     res = []
